@@ -4,7 +4,7 @@ from ..contracts_api import ContractDB
 
 def build_db():
     db = ContractDB()
-    from . import render, html, attrs, children, helpers, tagify, hooks, document, serial, jsx, paths
+    from . import render, html, attrs, children, helpers, tagify, hooks, document, serial, jsx, paths, equality
     render.register(db)
     html.register(db)
     attrs.register(db)
@@ -16,6 +16,7 @@ def build_db():
     serial.register(db)
     jsx.register(db)
     paths.register(db)
+    equality.register(db)
     return db
 
 
